@@ -254,6 +254,65 @@ def rule_segment_base(ctx) -> None:
         raise AnalysisError(f"C12.segment-base: only {n} register-backed segment parsers found")
 
 
+AREA_MODULES = ["spsdk/pfr/pfr.py", "spsdk/image/bca/bca.py", "spsdk/image/fcf/fcf.py", "spsdk/image/fcb/fcb.py", "spsdk/image/xmcd/xmcd.py", "spsdk/image/trustzone.py",
+                "spsdk/fuses/fuses.py", "spsdk/fuses/fuse_registers.py", "spsdk/memcfg/memcfg.py", "spsdk/image/segments_base.py", "spsdk/utils/registers.py"]
+MUTATORS = {"load_from_config", "load_yml_config", "load_config", "parse", "set_value", "set_config", "load_spec", "reset_value"}
+
+
+def rule_revision_flow(ctx) -> None:
+    """C12.revision-flow: an area built for (family, revision) hands the revision to every callee that takes one."""
+    from ..engines import paramflow
+    n = paramflow.check(ctx, "C12.revision-flow", AREA_MODULES)
+    ctx.chk.floor("C12.revision-flow", 50)
+    if n < 50:
+        raise AnalysisError(f"C12.revision-flow: only {n} revision-accepting call sites resolved in the area modules (expected >= 50)")
+
+
+def _root(e: ast.AST):
+    while isinstance(e, (ast.Attribute, ast.Call, ast.Subscript)):
+        e = e.func if isinstance(e, ast.Call) else e.value
+    return e.id if isinstance(e, ast.Name) else None
+
+
+def rule_fresh_derived(ctx) -> None:
+    """C12.fresh-derived: a local computed from an object's state by a method call is not used after that object was re-loaded in between."""
+    from ..core import callgraph as CG
+    chk = ctx.chk
+    n = 0
+    for fn in CG.all_functions(ctx.prog):
+        if fn.module.relpath not in AREA_MODULES:
+            continue
+        body = list(A.walk_no_nested(fn.node))
+        for st in body:
+            if not (isinstance(st, ast.Assign) and len(st.targets) == 1 and isinstance(st.targets[0], ast.Name)):
+                continue
+            v = st.targets[0].id
+            roots = {_root(c.func) for c in ast.walk(st.value) if isinstance(c, ast.Call) and isinstance(c.func, ast.Attribute)} - {None, "self", "cls"}
+            if not roots:
+                continue
+            uses = [u.lineno for u in body if isinstance(u, ast.Name) and u.id == v and isinstance(u.ctx, ast.Load) and u.lineno > st.lineno]
+            if not uses:
+                continue
+            n += 1
+            last = max(uses)
+            for m in body:
+                if isinstance(m, ast.Expr) and isinstance(m.value, ast.Call) and isinstance(m.value.func, ast.Attribute) and m.value.func.attr in MUTATORS and st.lineno < m.lineno < last:
+                    r = _root(m.value.func)
+                    if r not in roots or r == v or any(isinstance(x, ast.Name) and x.id == v for x in ast.walk(m.value)):
+                        continue
+                    chk.bad("C12.fresh-derived", fn.qual, f"`{norm(st)[:80]}` is computed before `{norm(m)[:70]}` changes `{r}` and is used afterwards (stale value)",
+                            "compute the derived value after the object is loaded", A.loc(fn.module.relpath, st))
+    chk.ok("C12.fresh-derived", "area modules", f"{n} locals derived from object state by a method call; none is used across a re-load of that object")
+    if n < 60:
+        raise AnalysisError(f"C12.fresh-derived: only {n} candidates analysed (expected >= 60)")
+    # embedded positive example
+    t = ast.parse("def f(cfg):\n    x = K()\n    size = len(x.registers.image_info())\n    x.block.load_from_config(cfg)\n    if x.size != size:\n        pass\n")
+    fnode = t.body[0]
+    st = fnode.body[1]
+    if not ({_root(c.func) for c in ast.walk(st.value) if isinstance(c, ast.Call) and isinstance(c.func, ast.Attribute)} == {"x"} and fnode.body[2].value.func.attr in MUTATORS):
+        raise AnalysisError("C12.fresh-derived: embedded positive example no longer matches")
+
+
 def run(ctx) -> None:
     ctx.chk.explain("C12: every register specification referenced by any (device, revision, feature, sub-feature/memory type) of the database is loaded as data and linted: bit-fields "
                     "fit registers, resets and enum values fit their widths, memory-laid-out areas have no overlapping registers, fit their declared/class size and have unique uids; "
@@ -268,6 +327,8 @@ def run(ctx) -> None:
     ctx.rule(rule_computed)
     ctx.rule(rule_seal_and_size)
     ctx.rule(rule_segment_base)
+    ctx.rule(rule_revision_flow)
+    ctx.rule(rule_fresh_derived)
     ctx.chk.assumptions = ["hardware layouts are as the specs state (3 IFR spec files with overlapping registers are known findings)", "register arithmetic itself is decided in C11",
                            "not decided: schema validity of generated templates, parse(export) identity at value level, verifier acceptance"]
 
